@@ -197,6 +197,35 @@ pub fn generate(ctx: &mut GenCtx) {
             emit_variants(ctx, "hub_siblings", &base, if k <= 4 { var_n + 1 } else { 1 });
         }
     }
+    // unions of 2-4 small disconnected pieces sharing end shapes: first-degree hashes shared ACROSS pieces, some hash
+    // lists labelled through recursion started from another list; label order permuted against the structure
+    {
+        let mut unions: Vec<Vec<(usize, usize)>> = vec![
+            vec![(0, 1), (0, 2)], vec![(0, 1), (0, 3)], vec![(0, 2), (0, 3)], vec![(0, 1), (0, 1), (0, 2)], vec![(0, 1), (0, 2), (0, 3)],
+            vec![(0, 2), (0, 2), (0, 3)], vec![(0, 1), (6, 0)], vec![(0, 2), (6, 0)], vec![(0, 1), (2, 2)], vec![(0, 1), (3, 2)],
+            vec![(2, 2), (2, 3)], vec![(3, 2), (0, 2)], vec![(1, 2), (1, 3)], vec![(1, 3), (0, 3)], vec![(4, 1), (4, 2)], vec![(4, 1), (0, 1), (5, 0)],
+            vec![(0, 1), (0, 2), (1, 2), (5, 0)], vec![(2, 2), (3, 2), (0, 2)], vec![(0, 3), (0, 4)], vec![(0, 1), (0, 4), (0, 2)],
+        ];
+        let extra = if th { 300 } else { 40 };
+        for _ in 0..extra {
+            let k = ctx.rng.range(2, 4);
+            unions.push((0..k).map(|_| (ctx.rng.below(7), ctx.rng.range(1, 3))).collect());
+        }
+        for (ui, u) in unions.iter().enumerate() {
+            let base = component_union(u, P1);
+            let patterns: &[usize] = if ui < 20 { &[0, 1, 2, 3] } else { &[3] };
+            for &pat in patterns {
+                let mut v = relabel_pattern(&base, pat, &mut ctx.rng);
+                if pat == 3 {
+                    shuffle(&mut v, &mut ctx.rng);
+                }
+                ctx.stats.bump("shape.component_union");
+                ctx.stats.bump(&format!("union.pieces_{}", u.len()));
+                let hash = if ctx.rng.chance(1, 5) { "sha384" } else { "sha256" };
+                emit(ctx, "component_union", &v, hash, 1.0, 6);
+            }
+        }
+    }
     // blank nodes told apart only by WHICH IRI-named graph links them to which neighbour (finding
     // C05-rdfc10-ambiguous-tie: RDFC-1.0 itself does not determine the output there)
     {
